@@ -69,9 +69,14 @@ def _skip_flags(
             continue
 
         if len(token) > 2 and token[0] == "-" and token[1] != "-":
-            base_flag = token[:2]
-            if base_flag in flags_with_arg:
-                i += 1
+            # Combined short options (-rn 1, -tI{}): the first one that takes a value ends
+            # the cluster; its value is the rest of the word or, if none, the next word
+            k = next(
+                (k for k in range(1, len(token)) if "-" + token[k] in flags_with_arg),
+                None,
+            )
+            if k is not None:
+                i += 1 if k + 1 < len(token) else 2
                 continue
 
         if "=" in token:
@@ -101,6 +106,13 @@ def classify(ctx: HandlerContext) -> Classification:
             if context:
                 return Classification("ask", description=f"xargs {token} ({context})")
             return Classification("ask", description=f"xargs {token}")
+        if len(token) > 2 and token[0] == "-" and token[1] != "-":
+            # -rp, -to: an interactive flag inside a cluster (before any value-taking option)
+            for ch in token[1:]:
+                if "-" + ch in FLAGS_WITH_ARG:
+                    break
+                if "-" + ch in UNSAFE_FLAGS:
+                    return Classification("ask", description=f"xargs -{ch}")
         if token.startswith("--interactive"):
             return Classification("ask", description="xargs --interactive")
         if token.startswith("--open-tty"):
